@@ -27,6 +27,8 @@ CONFIGS = {
     "rs-default-low": ("rs", 6, 6, 24, 6, 8, False),
     # key repeat switched off (what the pce500 CLI does for scripted key sequences): interval 0 = no repeats in the model
     "rs-norepeat-high": ("rs", 2, 6, 24, 0, 8, True),
+    "py-norepeat-high": ("py", 2, 4, 3, 0, 7, True),
+    "py-norepeat-low": ("py", 3, 4, 3, 0, 7, False),
 }
 
 
@@ -337,7 +339,7 @@ def run(cr: CheckRun) -> None:
     for cfgname, (impl, p, r, d, i, cap, high) in CONFIGS.items():
         slow = d >= 24
         campaign(cr, cfgname, random_acts(cr.seed + len(cfgname), n, 40 if not slow else 60, high, slow), "random")
-    for cfgname in ("rs-norepeat-high", "rs-press2-high", "py-small-high"):
+    for cfgname in ("rs-norepeat-high", "rs-press2-high", "py-small-high", "py-norepeat-high", "py-norepeat-low"):
         campaign(cr, cfgname, flicker_acts(cr.seed + 77, 60 if quick else 800, CONFIGS[cfgname][6]), "flicker")
     cr.mark("random")
     cr.cov["distinct_nontrivial"] = len({json.dumps(b, sort_keys=True) for b in items + sitems + ritems}) + n * len(CONFIGS)
